@@ -209,6 +209,16 @@ func flatten(e ast.Expr, neg bool, at ast.Node) []Cond {
 		if (x.Op == token.LAND && !neg) || (x.Op == token.LOR && neg) {
 			return append(flatten(x.X, neg, at), flatten(x.Y, neg, at)...)
 		}
+		if x.Op == token.LAND && neg {
+			// De Morgan: !(!A && !B) is A || B — written either way in the wild
+			if ops := negatedOperands(x); ops != nil {
+				or := ops[0]
+				for _, o := range ops[1:] {
+					or = &ast.BinaryExpr{X: or, Op: token.LOR, OpPos: x.OpPos, Y: o}
+				}
+				return []Cond{{Kind: "bool", Expr: or, Neg: false, At: at}}
+			}
+		}
 	}
 	return []Cond{{Kind: "bool", Expr: e, Neg: neg, At: at}}
 }
@@ -356,4 +366,20 @@ func (fi *FuncInfo) boolTest(c Cond) (x ast.Expr, val bool, ok bool) {
 		return ast.Unparen(c.Expr), !c.Neg, true
 	}
 	return nil, false, false
+}
+
+// negatedOperands returns A, B, … when e is !A && !B && …, else nil.
+func negatedOperands(e ast.Expr) []ast.Expr {
+	e = ast.Unparen(e)
+	if b, ok := e.(*ast.BinaryExpr); ok && b.Op == token.LAND {
+		l, r := negatedOperands(b.X), negatedOperands(b.Y)
+		if l == nil || r == nil {
+			return nil
+		}
+		return append(l, r...)
+	}
+	if u, ok := e.(*ast.UnaryExpr); ok && u.Op == token.NOT {
+		return []ast.Expr{ast.Unparen(u.X)}
+	}
+	return nil
 }
